@@ -247,10 +247,10 @@ def main(tier="quick", seed=0):
     vote = [c for c in cases if c["mode"] == "vote"]
     conf = [c for c in cases if c["mode"] == "conf"]
     n_generated = len(cases)
-    if quick:
-        vote = [vote[i] for i in sorted(rng.choice(len(vote), size=min(len(vote), 1500), replace=False))]
-        conf = [conf[i] for i in sorted(rng.choice(len(conf), size=min(len(conf), 1000), replace=False))]
-    extra = random_cases(rng, 150 if quick else 4000, 2 if quick else 3)
+    n_vote, n_conf = (1500, 1000) if quick else (35000, len(conf))
+    vote = [vote[i] for i in sorted(rng.choice(len(vote), size=min(len(vote), n_vote), replace=False))]
+    conf = [conf[i] for i in sorted(rng.choice(len(conf), size=min(len(conf), n_conf), replace=False))]
+    extra = random_cases(rng, 150 if quick else 3000, 2 if quick else 3)
     used = vote + conf + extra
     n_enc = 2                      # seeded choice of 2 of the 4 encodings per case
     n_seeds = 4 if quick else 8
@@ -281,7 +281,7 @@ def main(tier="quick", seed=0):
                 "normalisations; traces with identical abstract content are validated once; evaluations = calls of "
                 "the library; non-trivial = at least two labels and (two different classes or a missing entry), "
                 "distinct by (matrix, weights, true labels, K, class mode, function, weight form / normalisation)"
-                % (2 if quick else 3, " (quick tier: seeded sample of 1500 vote and 1000 conf cases)" if quick else "",
+                % (2 if quick else 3, " (seeded sample of %d vote and %d conf cases)" % (len(vote), len(conf)),
                    len(extra), n_enc, n_seeds))
     chk.validate("AggregationTrace", traces,
                  describe=lambda t: dict(t["concrete"], function="skactiveml.utils." + t["fn"]),
